@@ -291,6 +291,27 @@ func (g *Gen) otherRecipient() []byte {
 	return b
 }
 
+// remoteTokenSpelling: query-side spellings of a remote token -- every byte length around the 32-byte slot,
+// with and without the optional 0x prefix, odd digit counts, wrong-case prefix.
+func (g *Gen) remoteTokenSpelling() string {
+	n := []int{0, 1, 20, 31, 32, 33, 34, 40, 64}[g.pick(9)]
+	b := g.randBytes(n)
+	if n == 32 && g.chance(0.5) {
+		b = token(g.pick(3))
+	}
+	s := hx(b)
+	switch g.pick(8) {
+	case 0, 1, 2:
+		return "0x" + s
+	case 3, 4, 5:
+		return s
+	case 6:
+		return "0x" + s + "f"
+	default:
+		return "0X" + s
+	}
+}
+
 var domainPool = []uint32{0, 1, 3, 4, 5, 0xffffffff}
 
 func (g *Gen) domain() uint32 { return domainPool[g.pick(len(domainPool))] }
@@ -360,6 +381,46 @@ func (g *Gen) sign(key int, msg []byte) []byte {
 
 var secpN, _ = new(big.Int).SetString("fffffffffffffffffffffffffffffffebaaedce6af48a03bbfd25e8cd0364141", 16)
 
+// mirrorSign signs with the negated private key n-d: its public key shares the X coordinate of key's
+// public key (the point's mirror image) but is a different key with a different address, never enabled.
+func (g *Gen) mirrorSign(key int, msg []byte) []byte {
+	d := new(big.Int).Sub(secpN, g.keys[key].D)
+	mk, err := crypto.ToECDSA(d.FillBytes(make([]byte, 32)))
+	if err != nil {
+		panic(err)
+	}
+	sig, err := crypto.Sign(crypto.Keccak256(msg), mk)
+	if err != nil {
+		panic(err)
+	}
+	return sig
+}
+
+// sortSigsByAddr reorders the 65-byte signatures of att by the address of the key each recovers to over msg,
+// so that only the membership check can object.
+func sortSigsByAddr(msg, att []byte) []byte {
+	type sa struct {
+		sig  []byte
+		addr []byte
+	}
+	var l []sa
+	h := crypto.Keccak256(msg)
+	for i := 0; i+65 <= len(att); i += 65 {
+		sig := normV(att[i : i+65])
+		pub, err := crypto.Ecrecover(h, sig)
+		if err != nil {
+			return att
+		}
+		l = append(l, sa{att[i : i+65], crypto.Keccak256(pub[1:])[12:]})
+	}
+	sort.SliceStable(l, func(i, j int) bool { return bytes.Compare(l[i].addr, l[j].addr) < 0 })
+	var out []byte
+	for _, x := range l {
+		out = append(out, x.sig...)
+	}
+	return out
+}
+
 func highS(sig []byte) []byte {
 	c := append([]byte{}, sig...)
 	s := new(big.Int).SetBytes(c[32:64])
@@ -419,6 +480,12 @@ func (g *Gen) attest(msg []byte, o attOpts) []byte {
 	case "highSFirst":
 		if len(att) >= 65 {
 			copy(att[:65], highS(att[:65]))
+		}
+	case "mirrorKey":
+		// the last signature is replaced by one from the mirror image of the first signer's key
+		if len(att) >= 65 && len(signers) > 0 {
+			copy(att[len(att)-65:], g.mirrorSign(signers[0], over))
+			att = sortSigsByAddr(over, att)
 		}
 	case "reverse":
 		n := len(att) / 65
@@ -513,6 +580,10 @@ func (g *Gen) initStandard(nAtt, t int) {
 	}
 	g.fund(g.acctRaw[0], "UUSDC", "5000")
 	g.fund(g.acctRaw[0], "other", "5000")
+	if g.chance(0.5) {
+		// a stray balance on the module account (a transfer to it, or an inbound mint naming it) must not be touched
+		g.fund(types.ModuleAddress, mintDenom, []string{"1", "777", "18446744073709551616"}[g.pick(3)])
+	}
 	sp := g.standardGenesis(nAtt, t)
 	g.emit(Op{Kind: "genesis-init", KV: sp.kv()})
 	g.dump()
@@ -550,12 +621,22 @@ func (g *Gen) opReceive(from string, msg []byte, o attOpts) *KV {
 
 // inboundBurn builds a module-addressed burn message from domain src.
 func (g *Gen) inboundBurn(src uint32, nonce uint64, amount *big.Int, recipientAcct int) []byte {
-	body := buildBurnBody(0, token(0), pad32(g.acctRaw[recipientAcct]), amount, g.rand32())
+	rcp := g.acctRaw[recipientAcct]
+	if g.chance(0.06) {
+		rcp = types.ModuleAddress // minting to the module's own account leaves it with a balance
+	}
+	body := buildBurnBody(0, token(0), pad32(rcp), amount, g.rand32())
 	return buildMessage(0, src, 4, nonce, messengerAddr(src), types.PaddedModuleAddress, make([]byte, 32), body)
 }
 
 func bigPool(g *Gen) *big.Int {
-	switch g.pick(6) {
+	switch g.pick(9) {
+	case 6:
+		return big.NewInt(0)
+	case 7:
+		return new(big.Int).Add(new(big.Int).Lsh(big.NewInt(1), 64), big.NewInt(5))
+	case 8:
+		return new(big.Int).Lsh(big.NewInt(1), 63)
 	case 0:
 		return big.NewInt(1)
 	case 1:
